@@ -213,10 +213,18 @@ def clean_disper(disper):
     return {k: (None if v is None else [float(v[0]), float(v[1])]) for k, v in disper.items()}
 
 
+def spelled_name(sgname, hkl):
+    """the group name as a caller may write it (sg.sg ignores case and white space): as tabulated, upper case (the setting suffix of
+    'R-3r' included), padded as a value read from a file, every character separated -- a fixed function of the call"""
+    import zlib
+    k = zlib.crc32(repr((sgname, [int(v) for v in hkl])).encode()) % 4
+    return [sgname, sgname.upper(), '  ' + sgname[:1].upper() + sgname[1:] + ' \n', ' '.join(sgname.upper())][k]
+
+
 def SF(hkl, cell, sgname, atoms, disper):
     """the real code, called by NAME; result as a Python complex"""
     structure, sg, atomlib, tools = _x()
-    r = structure.StructureFactor([int(v) for v in hkl], [float(v) for v in cell], sgname, build_atoms(atoms), clean_disper(disper))
+    r = structure.StructureFactor([int(v) for v in hkl], [float(v) for v in cell], spelled_name(sgname, hkl), build_atoms(atoms), clean_disper(disper))
     return complex(float(r[0]), float(r[1]))
 
 
